@@ -4,6 +4,7 @@ import (
 	"context"
 	"encoding/json"
 	"fmt"
+	"os"
 	"strings"
 	"sync"
 	"testing"
@@ -31,8 +32,18 @@ type replay struct {
 }
 
 // after reports the races of the execution that just finished.
+func propName() string {
+	if p := os.Getenv("VERIF_PROP"); p != "" {
+		return p
+	}
+	return "C20"
+}
+
 func after(c *harness.C, rp replay, what string) {
 	for _, r := range c.NewRaceReports() {
+		if propName() != "C20" {
+			continue // a slice run for another property: races are C20's business
+		}
 		if r.Frames[0] == "" || r.Frames[1] == "" {
 			c.Add("race_reports_with_harness_frames", 1)
 			c.Note("harness-race", strings.ReplaceAll(r.Text, "\n", " | ")[:min(len(r.Text), 1500)])
@@ -173,14 +184,34 @@ func kgRun(c *harness.C, backend string, t int, variant string, r *explore.Recor
 					m    captured
 				}{order[0], order[2], order[4], order[1], order[3], order[5]}
 			}
+			late := -1
+			if strings.HasPrefix(variant, "one-late-") {
+				// party 3's share / commitment / reveal arrives only after the caller's deadline
+				late = map[string]int{"one-late-share": 1, "one-late-commit": 3, "one-late-reveal": 5}[variant]
+				if late >= len(order) {
+					late = -1
+				}
+			}
 			sc.Go("D", func() {
 				<-inited
-				for _, x := range order {
+				for i, x := range order {
+					if i == late {
+						continue
+					}
 					dmu.Lock()
 					x0.OnMsg(x.m.msg, x.from, x.m.bcast)
 					dmu.Unlock()
 				}
 			})
+			if late >= 0 {
+				sc.Go("L", func() {
+					<-inited
+					time.Sleep(5*time.Second + time.Millisecond)
+					dmu.Lock()
+					x0.OnMsg(order[late].m.msg, order[late].from, order[late].m.bcast)
+					dmu.Unlock()
+				})
+			}
 		}
 		for _, from := range []uint16{2, 3} {
 			if strings.HasPrefix(variant, "one-") {
@@ -239,7 +270,18 @@ func (q *quickBackend) ThresholdPK() ([]byte, error)                   { return 
 func tablesRun(c *harness.C, variant string, r *explore.Recorder) *kgOut {
 	o := &kgOut{}
 	rec := c.Bubble(func() {
-		mem := func() map[tss.UniversalID]tss.PartyID { return map[tss.UniversalID]tss.PartyID{1: 1, 2: 2, 3: 3} }
+		mem := func() map[tss.UniversalID]tss.PartyID {
+			return map[tss.UniversalID]tss.PartyID{1: 1, 2: 2, 3: 3, 4: 4, 5: 5}
+		}
+		if !strings.HasSuffix(variant, "-foreign") {
+			mem = func() map[tss.UniversalID]tss.PartyID { return map[tss.UniversalID]tss.PartyID{1: 1, 2: 2, 3: 3} }
+		}
+		// "-foreign": both dispatcher threads deliver for nodes that are not part of the session
+		src2, src3 := uint16(2), uint16(3)
+		if strings.HasSuffix(variant, "-foreign") {
+			src2, src3 = 4, 5
+			variant = strings.TrimSuffix(variant, "-foreign")
+		}
 		send := func(uint8, []byte, []byte, ...uint16) {}
 		qb := &quickBackend{}
 		p := threshold.LoudScheme(1, world.NopLogger{}, func(uint16) tss.KeyGenerator { return qb }, func(uint16) tss.Signer { return qb }, 1, send, mem)
@@ -270,11 +312,13 @@ func tablesRun(c *harness.C, variant string, r *explore.Recorder) *kgOut {
 		payload := append([]byte{255}, []byte{s.ClassBcast, 1, 7}...)
 		ack := append([]byte{1, 0, 3}, world.Sha([]byte{s.ClassBcast, 1, 7})...)
 		sc.Go("D2", func() {
-			p.HandleMessage(&tss.IncMessage{Data: payload, Source: 2, MsgType: 2, Topic: topic})
-			p.HandleMessage(&tss.IncMessage{Data: []byte{1}, Source: 2, MsgType: 1, Topic: topic})
+			p.HandleMessage(&tss.IncMessage{Data: payload, Source: src2, MsgType: 2, Topic: topic})
+			p.HandleMessage(&tss.IncMessage{Data: []byte{1}, Source: src2, MsgType: 1, Topic: topic})
+			p.HandleMessage(&tss.IncMessage{Data: ack, Source: src2, MsgType: 2, Topic: topic})
 		})
 		sc.Go("D3", func() {
-			p.HandleMessage(&tss.IncMessage{Data: ack, Source: 3, MsgType: 2, Topic: topic})
+			p.HandleMessage(&tss.IncMessage{Data: ack, Source: src3, MsgType: 2, Topic: topic})
+			p.HandleMessage(&tss.IncMessage{Data: payload, Source: src3, MsgType: 2, Topic: topic})
 		})
 		sc.Run(r)
 		o.deadlock = sc.Deadlock
@@ -310,7 +354,7 @@ func famCase(f fam, k int) harness.Case {
 			var unfin []string
 			tr, dl, unfin = f.run(c, r)
 			if dl || len(unfin) > 0 {
-				c.Violation("no-deadlock", "c20-deadlock:"+f.name, fmt.Sprintf("%s schedule %v: threads %v never finished", f.name, r.Prefix, unfin), f.rp(r.Prefix))
+				c.Violation("no-deadlock", strings.ToLower(propName())+"-deadlock:"+f.name, fmt.Sprintf("%s schedule %v: threads %v never finished", f.name, r.Prefix, unfin), f.rp(r.Prefix))
 			}
 		}
 		e.Visit = func(r *explore.Recorder) {
@@ -378,6 +422,9 @@ func gen(c *harness.C) []harness.Case {
 		if len(sc.Threads) <= 2 {
 			b = b2
 		}
+		if strings.HasPrefix(sc.Name, "s14-idle-") && sc.Name != "s14-idle-8-epochs-then-first-send" {
+			continue
+		}
 		if strings.HasPrefix(sc.Name, "s12-long-lived-topic") {
 			// one thread against the clock goroutine, dozens of steps: one length, one preemption
 			if sc.Name != "s12-long-lived-topic-8-epochs" {
@@ -394,7 +441,7 @@ func gen(c *harness.C) []harness.Case {
 	}
 	for _, be := range []string{"bls", "ps"} {
 		for _, t := range []int{3, 2} {
-			for _, v := range []string{"after-init", "early", "dup", "one-in-phase", "one-reveal-early", "one-dup"} {
+			for _, v := range []string{"after-init", "early", "dup", "one-in-phase", "one-reveal-early", "one-dup", "one-late-share", "one-late-commit", "one-late-reveal"} {
 				be, t, v := be, t, v
 				name := fmt.Sprintf("keygen/%s/t%d/%s", be, t, v)
 				bd := b3
@@ -407,6 +454,12 @@ func gen(c *harness.C) []harness.Case {
 				if v == "one-dup" && t == 2 && !c.Thorough() {
 					continue
 				}
+				if strings.HasPrefix(v, "one-late-") {
+					bd = 1
+					if t == 2 && !c.Thorough() {
+						continue
+					}
+				}
 				fams = append(fams, fam{name: name, bound: bd,
 					run: func(c *harness.C, r *explore.Recorder) ([]string, bool, []string) {
 						o := kgRun(c, be, t, v, r)
@@ -416,7 +469,7 @@ func gen(c *harness.C) []harness.Case {
 			}
 		}
 	}
-	for _, v := range []string{"keygen", "sign"} {
+	for _, v := range []string{"keygen", "sign", "keygen-foreign", "sign-foreign"} {
 		v := v
 		name := "tables/" + v
 		fams = append(fams, fam{name: name, bound: b3,
@@ -436,6 +489,17 @@ func gen(c *harness.C) []harness.Case {
 			},
 			rp: func(ch []int) replay { return replay{Family: name, Variant: v, Choices: ch} }})
 	}
+	if os.Getenv("VERIF_FAMILY") == "earlycrash" {
+		// slice for C10: messages that reach a backend before / while it is initialised must not
+		// crash or wedge it (every interleaving of Init+KeyGen with two early dispatcher threads)
+		var keep []fam
+		for _, f := range fams {
+			if strings.HasPrefix(f.name, "keygen/") && strings.HasSuffix(f.name, "/early") {
+				keep = append(keep, f)
+			}
+		}
+		fams = keep
+	}
 	var cases []harness.Case
 	for _, f := range fams {
 		for k := 0; k < shards; k++ {
@@ -445,4 +509,4 @@ func gen(c *harness.C) []harness.Case {
 	return cases
 }
 
-func TestCheck(t *testing.T) { harness.Main(t, "C20", gen) }
+func TestCheck(t *testing.T) { harness.Main(t, propName(), gen) }
